@@ -140,6 +140,27 @@ fn two_submitters(n: usize, m: usize) {
     drop(pool);
 }
 
+/// (e) M tasks on N workers: at no moment are more than N of them running (a pool of one is
+/// serial); every task still runs exactly once
+fn at_most_n(n: usize, m: usize) {
+    let pool = ThreadPool::new(n);
+    let running = Arc::new(AtomicUsize::new(0));
+    let done = Latch::new();
+    for _ in 0..m {
+        let running = running.clone();
+        let done = done.clone();
+        pool.execute(move || {
+            let now = running.fetch_add(1, Ordering::SeqCst) + 1;
+            assert!(now <= n, "more tasks running at once than the pool has workers");
+            loom::thread::yield_now();
+            running.fetch_sub(1, Ordering::SeqCst);
+            done.arrive();
+        });
+    }
+    done.wait_for(m);
+    drop(pool);
+}
+
 fn main() {
     let args: Vec<String> = std::env::args().collect();
     if args.len() < 5 {
@@ -167,6 +188,7 @@ fn main() {
             "rendezvous" => rendezvous(n, m),
             "slow_task" => slow_task(n, m),
             "two_submitters" => two_submitters(n, m),
+            "at_most_n" => at_most_n(n, m),
             _ => panic!("unknown scenario"),
         }
     });
